@@ -1214,6 +1214,8 @@ impl FseDecoder {
         // Build decompression table
         let config = FseConfig {
             table_log,
+            // the table size is dictated by the stream (the encoder always uses 2^12 slots)
+            max_table_size: self.config.max_table_size.max(1usize << table_log),
             ..self.config.clone()
         };
         let table = FseTable::new(&frequencies, &config)?;
